@@ -1,5 +1,6 @@
 """C04 - a completed transfer is byte-exact; success is never reported otherwise."""
 import ast
+import re
 import hashlib
 import io
 import os
@@ -30,8 +31,8 @@ RULE = ("real cmd_send.send()/cmd_receive.receive() against the real server, tra
         "delivered); distinct = (payload kind, size, fault, position, path).")
 ASSUMPTIONS = ["file modes/timestamps are not compared", "a leftover <dest>.tmp after a failure is allowed",
                "sizes <= ~1 MB, trees <= 12 entries"]
-FLOORS = {"quick": {"clean_success": 60, "data_faults_fired": 50, "ack_faults_fired": 10, "liar_cases": 20, "grow_cases": 15, "stale_tmp_cases": 30, "unsendable_entries_skipped": 20},
-          "thorough": {"clean_success": 2000, "data_faults_fired": 4000, "ack_faults_fired": 250, "liar_cases": 800}}
+FLOORS = {"quick": {"clean_success": 60, "data_faults_fired": 50, "ack_faults_fired": 10, "liar_cases": 20, "grow_cases": 15, "stale_tmp_cases": 30, "unsendable_entries_skipped": 20, "mode_zeromode": 5, "mode_verify-yes": 10, "mode_verify-no": 5, "mode_sender-allocates": 5, "mode_receiver-allocates": 5},
+          "thorough": {"clean_success": 2000, "data_faults_fired": 4000, "ack_faults_fired": 250, "liar_cases": 800, "mode_zeromode": 150, "mode_verify-yes": 300, "mode_verify-no": 150, "mode_sender-allocates": 150, "mode_receiver-allocates": 150}}
 APPID = "lothar.com/wormhole/text-or-file-xfer"
 TEXTS = ["hello", "", "it's \"quoted\"", "line1\nline2\r\n\ttab", "\x1b[31mred\x1b[0m \x07bell", "‮evil‬ bidi",
          "ünïcödé ✓ 𝔘", "'", '"', "\\", "\\n", "a" * 5000, "\x00nul", " sep", "'\"'"]
@@ -80,6 +81,12 @@ def cases(tier, seed, prep=None):
     # rarely used options: --ignore-unsendable-files over trees with dangling links, --code-length, --verify off/on
     for i in range(24 if q else 600):
         out.append({"kind": "clean", "payload": "directory", "seed": base + k, "relay": i % 5 == 0, "unsendable": True})
+        k += 1
+    # ... --zeromode, --verify (answered yes / no), a code allocated by the sender (1-5 words) or by the receiver
+    for i in range(48 if q else 1500):
+        out.append({"kind": "clean", "payload": ["file", "text", "directory"][i % 3], "seed": base + k, "relay": i % 5 == 0,
+                    "mode": ["zeromode", "verify-yes", "verify-no", "sender-allocates", "receiver-allocates", "verify-yes"][i % 6],
+                    "code_length": [1, 2, 3, 5][(i // 6) % 4]})
         k += 1
     for i in range(28 if q else 1000):
         out.append({"kind": "liar", "payload": "file", "seed": base + k, "lie": ["wrong-hash", "not-ok", "garbage", "never"][i % 4]})
@@ -188,6 +195,31 @@ def _run(spec, world, rng, r, base):
     sa.cwd = sd
     ra = mkargs(code=code, transit_helper=helper, listen=listen)
     ra.cwd = rd
+    mode = spec.get("mode")
+    start_receiver_when = None
+    start_sender_when = None
+    if mode:
+        from ..cli_work import ANSWERS
+        if payload == "text" and desc["text"] == "":
+            sa.text = desc["text"] = "x"          # (keep the prompts of this case to the one under test)
+        del ANSWERS[:]
+        if mode == "zeromode":
+            sa.code = ra.code = None
+            sa.zeromode = ra.zeromode = True
+        elif mode.startswith("verify"):
+            sa.verify = ra.verify = True
+            ANSWERS.append("yes" if mode == "verify-yes" else "no")
+        elif mode == "sender-allocates":
+            sa.code = None
+            sa.code_length = spec["code_length"]
+            ra.code = None
+            start_receiver_when = lambda: re.search(r"Wormhole code is: (\S+)", sa.stderr.getvalue())
+        elif mode == "receiver-allocates":
+            ra.code = None
+            ra.allocate = True
+            ra.code_length = spec["code_length"]
+            sa.code = None
+            start_sender_when = lambda: re.search(r"Allocated code: (\S+)", ra.stderr.getvalue())
     fault = None
     stream_total = None
     if spec["kind"] in ("datafault", "ackfault"):
@@ -212,11 +244,25 @@ def _run(spec, world, rng, r, base):
     sf = StreamFault(world, fault)
     sf.install()
     liar_log = []
+    cmd_send.reactor = r       # (--verify pauses with the module-level reactor, which is the running reactor in real use)
     sender = cmd_send.Sender(sa, r)           # exactly what cmd_send.send() does
-    rs = Result(sender.go())
     receiver = None
+    late = {}
+    late_d = {}
+    if start_sender_when is not None:
+        # the sender is started by hand once the receiver has printed the code it allocated
+        late_d["sender"] = defer.Deferred()
+        rs = Result(late_d["sender"])
+        late["sender"] = start_sender_when
+    else:
+        rs = Result(sender.go())
     if spec["kind"] == "liar":
         rr = Result(lying_receiver(world, code, spec["lie"], liar_log))
+    elif start_receiver_when is not None:
+        receiver = cmd_receive.Receiver(ra, r)
+        late_d["receiver"] = defer.Deferred()
+        rr = Result(late_d["receiver"])
+        late["receiver"] = start_receiver_when
     else:
         receiver = cmd_receive.Receiver(ra, r)    # exactly what cmd_receive.receive() does
         rr = Result(receiver.go())
@@ -249,6 +295,7 @@ def _run(spec, world, rng, r, base):
                         e._connection_lost(failure.Failure(error.ConnectionDone()))
 
     grown = []
+    allocated = []
 
     def hook():
         if spec["kind"] == "grow" and not grown and "Wormhole code is" in sa.stderr.getvalue():
@@ -256,6 +303,17 @@ def _run(spec, world, rng, r, base):
             grown.append(rng.randbytes(spec["append"]))
             with open(os.path.join(sd, desc["name"]), "ab") as f:
                 f.write(grown[0])
+        for who_ in list(late):
+            m_ = late[who_]()
+            if m_:
+                del late[who_]
+                if who_ == "receiver":
+                    ra.code = m_.group(1)
+                    receiver.go().chainDeferred(late_d["receiver"])
+                else:
+                    sa.code = m_.group(1)
+                    sender.go().chainDeferred(late_d["sender"])
+                allocated.append(m_.group(1))
         if rs.done:
             process_exit("s")
         if rr.done and receiver is not None:
@@ -326,6 +384,9 @@ def _run(spec, world, rng, r, base):
                 extra = sorted(set(d_tree) - set(s_tree))[:5]
                 diff = [k for k in s_tree if k in d_tree and s_tree[k] != d_tree[k]][:5]
                 viol.append({"key": "C04/directory/differs-after-success", "msg": "missing %s extra %s different %s" % (missing, extra, diff), "witness": wit})
+    if spec.get("mode") == "verify-no" and "success" in (so, ro):
+        viol.append({"key": "C04/success-after-verification-rejected", "msg": "the sender's user answered no to the verifier prompt; sender=%s receiver=%s, receiver has %s" % (so, ro, sorted(dst)[:4]),
+                     "witness": wit})
     # (b) data stream cut/corrupted before the receiver had every byte
     if kind == "datafault" and fired:
         if so == "success" or ro == "success":
@@ -362,7 +423,7 @@ def _run(spec, world, rng, r, base):
             "counters": {"clean_success": int(clean and so == "success" and ro == "success"),
                          "data_faults_fired": int(kind == "datafault" and fired), "ack_faults_fired": int(kind == "ackfault" and fired),
                          "liar_cases": int(kind == "liar" and bool(liar_log)), "grow_cases": int(kind == "grow" and bool(grown)), "stale_tmp_cases": int(bool(desc.get("stale_tmp"))), "unsendable_entries_skipped": len(desc.get("unsendable", [])), "clean_failed": int(bool(clean_failure)), "hangs": int(bool(hang)), "faults_not_reached": int(kind in ("datafault", "ackfault") and not fired),
-                         "payload_" + payload: 1, "via_relay": int(any(l.tags.get("port") == 4001 for l in r.links)),
+                         "payload_" + payload: 1, **({"mode_" + spec["mode"]: int(so == "success" and ro == "success") if spec["mode"] != "verify-no" else int("Error" in so)} if spec.get("mode") else {}), "via_relay": int(any(l.tags.get("port") == 4001 for l in r.links)),
                          "steps": world.step, "bytes_payload": desc.get("size", 0)},
             "sets": {"clean_transfers_that_failed": [clean_failure] if clean_failure else [],
                      "hangs_observed": [hang] if hang else []},
